@@ -46,14 +46,32 @@
 //! [metrics]: https://docs.rs/metrics
 #![deny(missing_docs)]
 #![cfg_attr(docsrs, feature(doc_cfg), deny(rustdoc::broken_intra_doc_links))]
+#[cfg(metrics_verif)]
+mod verif_mio;
+#[cfg(metrics_verif)]
+use metrics::__verif::sync::atomic::{AtomicBool, AtomicUsize};
+#[cfg(metrics_verif)]
+use std::collections::{BTreeMap, BTreeMap as HashMap, VecDeque};
+#[cfg(metrics_verif)]
 use std::io::{self, Write};
+#[cfg(metrics_verif)]
 use std::net::SocketAddr;
+#[cfg(metrics_verif)]
+use std::sync::{atomic::Ordering, Arc};
+#[cfg(not(metrics_verif))]
+use std::io::{self, Write};
+#[cfg(not(metrics_verif))]
+use std::net::SocketAddr;
+#[cfg(not(metrics_verif))]
 use std::sync::{
     atomic::{AtomicBool, Ordering},
     Arc,
 };
+#[cfg(not(metrics_verif))]
 use std::thread;
+#[cfg(not(metrics_verif))]
 use std::time::SystemTime;
+#[cfg(not(metrics_verif))]
 use std::{
     collections::{BTreeMap, HashMap, VecDeque},
     sync::atomic::AtomicUsize,
@@ -65,6 +83,12 @@ use metrics::{
     Counter, CounterFn, Gauge, GaugeFn, Histogram, HistogramFn, Key, KeyName, Metadata, Recorder,
     SetRecorderError, SharedString, Unit,
 };
+#[cfg(metrics_verif)]
+use self::verif_mio::{
+    net::{TcpListener, TcpStream},
+    Events, Interest, Poll, Token, Waker,
+};
+#[cfg(not(metrics_verif))]
 use mio::{
     net::{TcpListener, TcpStream},
     Events, Interest, Poll, Token, Waker,
@@ -312,6 +336,11 @@ impl TcpBuilder {
         let state = Arc::new(State::new(waker, tx));
         let recorder = TcpRecorder { state: state.clone() };
 
+        #[cfg(metrics_verif)]
+        metrics::__verif::thread::spawn_detached("metrics-exporter-tcp-transport", move || {
+            run_transport(poll, listener, rx, state, buffer_size)
+        })?;
+        #[cfg(not(metrics_verif))]
         thread::spawn(move || run_transport(poll, listener, rx, state, buffer_size));
         Ok(recorder)
     }
@@ -618,6 +647,9 @@ fn convert_metric_to_protobuf_encoded(
         MetricOperation::RecordHistogram(v) => proto::metric::Operation::RecordHistogram(v),
     };
 
+    #[cfg(metrics_verif)]
+    let now: prost_types::Timestamp = metrics::__verif::time::system_time_now().into();
+    #[cfg(not(metrics_verif))]
     let now: prost_types::Timestamp = SystemTime::now().into();
     let metric = proto::Metric { name, labels, timestamp: Some(now), operation: Some(operation) };
     let event = proto::Event { event: Some(proto::event::Event::Metric(metric)) };
